@@ -870,9 +870,11 @@ def history_cases(ctx, quick, CNF, S):
     cases = []
     for hi in range(12 if quick else 120):
         G = CNF()
-        if rng.random() < 0.5:
-            G.update_variable_number(rng.randint(0, 3))
         steps = []
+        if rng.random() < 0.5:
+            n0 = rng.randint(0, 3)
+            G.update_variable_number(n0)
+            steps.append(['update_variable_number', n0])
         for ei in range(rng.randint(3, 6)):
             N0 = G.number_of_variables()
             edit = rng.choice(['clause-new-variables', 'clause-new-variables', 'clause-old', 'raise', 'new_variable', 'new_block',
@@ -1033,8 +1035,20 @@ def replay(ctx, rp):
     if 'variables_created_by' in d:
         G = build_spec(CNF, [tuple(tuple(y) if isinstance(y, list) else y for y in x) for x in d['variables_created_by']], F)
     elif 'history' in d:
-        # the same formula without its history (the history is in the replay file for the reader)
-        G = build_formula(CNF, N, F, 'anonymous')
+        G = CNF()
+        if d.get('initial_variables'):
+            G.update_variable_number(d['initial_variables'])
+        for st in d['history']:
+            if st[0] == 'add_clause':
+                G.add_clause(st[1])
+            elif st[0] == 'update_variable_number':
+                G.update_variable_number(st[1])
+            elif st[0] == 'new_variable':
+                G.new_variable(st[1])
+            elif st[0] == 'new_block':
+                G.new_block(st[1], label=st[2])
+            else:       # a transformation (chains)
+                G = impl_thunk(S, G, st[0], st[1:])()
     else:
         G = build_formula(CNF, N, F, d.get('style', 'anonymous'))
     site = 'substitution-of-unlabelled-variable' if d.get('shape') == 'no-label' else None
